@@ -7,6 +7,7 @@ import "unsafe"
 // arena (heap flavour): shared inputs live on the Go heap, so that the race
 // detector shadows them (-race build, DESIGN §4.6 "R build").
 type arena struct {
+	all byteRanges // every allocation handed out (full capacity): "is this address an input?"
 	br  byteRanges
 	mis int // rotating misalignment for byte data (0..7)
 }
@@ -25,6 +26,7 @@ func (a *arena) u64s(x []uint64) []uint64 {
 	for i := len(x); i < len(out); i++ {
 		out[i] = sentinel64
 	}
+	a.all.add(uintptr(unsafe.Pointer(&out[0])), uintptr(8*len(out)))
 	return out[:len(x)]
 }
 func (a *arena) i32s(x []int32) []int32 {
@@ -33,6 +35,7 @@ func (a *arena) i32s(x []int32) []int32 {
 	for i := len(x); i < len(out); i++ {
 		out[i] = sentinel32
 	}
+	a.all.add(uintptr(unsafe.Pointer(&out[0])), uintptr(4*len(out)))
 	return out[:len(x)]
 }
 func (a *arena) bytes(x []byte) []byte {
@@ -46,6 +49,7 @@ func (a *arena) bytes(x []byte) []byte {
 		out[i] = sentinel8
 	}
 	a.br.add(uintptr(unsafe.Pointer(&out[0])), uintptr(len(x)))
+	a.all.add(uintptr(unsafe.Pointer(&out[0])), uintptr(len(out)))
 	return out[:len(x)]
 }
 func (a *arena) strs(x []string) []string {
@@ -55,12 +59,16 @@ func (a *arena) strs(x []string) []string {
 		full := make([]byte, len(s)+8)
 		copy(full[a.mis:], s)
 		out[i] = string(full)[a.mis : a.mis+len(s)] // one copy; the string starts at a rotating misalignment
+		if len(s) > 0 {
+			a.all.add(uintptr(unsafe.Pointer(unsafe.StringData(out[i]))), uintptr(len(s)))
+		}
 	}
 	return out
 }
 func (a *arena) seal()                        {}
 func (a *arena) free()                        {}
-func (a *arena) contains(addr uintptr) bool   { return false }
+func (a *arena) contains(addr uintptr) bool   { return a.all.contains(addr) }
+func (a *arena) inGuard(addr uintptr) bool    { return false }
 func enablePanicOnFault()                     {}
 func faultAddr(r interface{}) (uintptr, bool) { return 0, false }
 
